@@ -1,0 +1,78 @@
+//go:build verif
+
+package udp
+
+// Machine-checked contracts for /verif (govc). Comment-only, compiled only
+// with -tags verif; changes no behaviour.
+
+// ---- C03 (responder, UDP association) ----
+//
+// performKeyExchange: one fresh pair; secret = ECDH(own private, initiator's public) with nil error; the
+// key is derived for (request id of the OPEN, initiator public, own public, responder) and becomes the
+// association's key; the public key of the same pair is returned for the ACK.
+//
+// HandleUDPOpen: the association is registered (accepted) only with a session key, and the ACK carries the
+// request id of the OPEN and the public key returned by performKeyExchange.
+
+//@ func (*Association).SetSessionKey
+//@ prop C03
+//@ modifies a.SessionKey
+//@ ensures a.SessionKey == key
+
+//@ func (*Handler).performKeyExchange
+//@ prop C03
+//@ modifies *
+//@ after call crypto.GenerateEphemeralKeypair let c03priv = $ret0
+//@ after call crypto.GenerateEphemeralKeypair let c03pub = $ret1
+//@ after call crypto.GenerateEphemeralKeypair let c03genErr = $ret2
+//@ at call crypto.ComputeECDH assert c03genErr == nil && c03pub == pubOf(c03priv)
+//@ at call crypto.ComputeECDH assert $0 == c03priv && $1 == remoteEphemeralPub
+//@ after call crypto.ComputeECDH let c03secret = $ret0
+//@ after call crypto.ComputeECDH let c03dhErr = $ret1
+//@ at call crypto.DeriveSessionKey assert c03dhErr == nil && $0 == c03secret && c03secret == dh(c03priv, remoteEphemeralPub) && c03secret != zeros()
+//@ at call crypto.DeriveSessionKey assert $1 == old(open.RequestID) && $2 == remoteEphemeralPub && $3 == c03pub && $4 == false
+//@ after call crypto.DeriveSessionKey let c03key = $ret
+//@ at call SetSessionKey assert $0 == assoc && $1 == c03key && c03key != nil
+//@ ensures err == nil ==> result0 == c03pub && c03dhErr == nil
+//@ ensures err == nil ==> assoc.SessionKey != nil
+//@ ensures remoteEphemeralPub == zeros() ==> err != nil
+
+//@ func (*Handler).HandleUDPOpen
+//@ prop C03
+//@ modifies *
+//@ at call NewAssociation assert $1 == open.RequestID
+//@ after call NewAssociation let c03assoc = $ret
+//@ at call performKeyExchange assert $1 == c03assoc && $2 == open && $3 == remoteEphemeralPub
+//@ after call performKeyExchange let c03pub = $ret0
+//@ at call Lock#0 assert assoc == c03assoc && assoc.SessionKey != nil
+//@ note the guard above is what C03 demands (no tunnel without a key; a zero initiator key is refused). It FAILS on the code: a UDP_OPEN whose EphemeralPubKey is all zero skips the key exchange and the association is registered and acknowledged without any key (handler.go:163-174)
+//@ at call WriteUDPOpenAck assert $3.RequestID == old(open.RequestID)
+//@ at call WriteUDPOpenAck assert remoteEphemeralPub != zeros() ==> $3.EphemeralPubKey == c03pub
+
+//@ census[C03] crypto.DeriveSessionKey in (*Handler).performKeyExchange
+//@ census[C03] crypto.ComputeECDH in (*Handler).performKeyExchange
+//@ census[C03] (*Handler).performKeyExchange in (*Handler).HandleUDPOpen
+
+// ---- C04 (exit endpoint, UDP): datagrams read from the socket go to the mesh only sealed ----
+//
+// Association.Encrypt is the only producer of the Data field sent by readLoop. What C04 demands of it:
+// on success the result is the output of SessionKey.Encrypt under the association's key for exactly the
+// given plaintext. The first clause FAILS on the code: without a session key the plaintext itself is
+// returned ("Returns the original data if no session key is set", association.go:207-209).
+
+//@ func (*Association).Encrypt
+//@ prop C04
+//@ modifies *
+//@ ensures err == nil ==> old(a.SessionKey) != nil
+//@ ensures err == nil && old(a.SessionKey) != nil ==> sealed(old(a.SessionKey).key, dirword(old(a.SessionKey).isInitiator), old(a.SessionKey.sendNonce), plaintext, result)
+//@ at call (*SessionKey).Encrypt assert $0 == a.SessionKey && $1 == plaintext
+
+//@ func (*Handler).readLoop
+//@ prop C04
+//@ modifies *
+//@ at call (*Association).Encrypt assert $0 == assoc
+//@ after call (*Association).Encrypt let c04ct = $ret0
+//@ at call DataWriter.WriteUDPDatagram assert $3.Data == c04ct && $1 == assoc.PeerID && $2 == assoc.StreamID
+
+//@ census[C04] DataWriter.WriteUDPDatagram in (*Handler).readLoop
+//@ census[C04] (*Association).Encrypt in (*Handler).readLoop
